@@ -350,8 +350,8 @@ def g_gadget_sym(r):
     return g_gadget(r, False)
 
 
-UT = {"u8": 1, "u16": 2, "u32": 4, "u64": 8}
-IT = {"i8": 1, "i16": 2, "i32": 4, "i64": 8}
+UT = {"u8": 1, "u16": 2, "u32": 4, "u64": 8, "nu8": 1, "nu16": 2, "nu32": 4, "nu64": 8}      # n*: defined (named) types
+IT = {"i8": 1, "i16": 2, "i32": 4, "i64": 8, "ni8": 1, "ni16": 2, "ni32": 4, "ni64": 8}
 
 
 def CONST_WIDE(r):
